@@ -15,7 +15,8 @@ TECHNIQUE = ("runtime monitoring: real BallDevice/Playfield/BallController on Ti
              "invariants after every loop iteration, room check at every launch")
 RULE = ("case = generated topology (trough 2-6 switches with pulse/enable coil; no/coil/mechanical/auto+manual plunger; "
         "switch-, entrance- or hold-coil lock; drain device; playfield VUK feeding the plunger; count delays, "
-        "timeouts) x physics seed "
+        "timeouts) x physics seed x holds of the balldevice_<src>_ball_eject_attempt queue event (0..10 s, as diverters "
+        "do) x unsolicited entries (loose ball rolls back into the plunger lane, lock/VUK shots) while a source waits "
         "x fault schedule per device x script of game/player actions with rest points; distinct = topology kind, "
         "ball count, op-kind sequence, fault pattern; non-trivial = at least one rest point was reached with the "
         "world frozen for the full horizon and all three rest clauses were evaluated")
@@ -42,6 +43,8 @@ ASSUMPTIONS = [
     "itself launched towards it that are on time (a late ball which MPF may already have given up is not counted)",
     "equality is only demanded when every ball device is idle after the world was frozen (no physical change and no "
     "coil command) for H virtual seconds; a device that is not idle then is C05's subject",
+    "handlers hold the ball_eject_attempt queue event for at most 10 virtual s; a ball that rolled into a purely "
+    "mechanical plunger lane rests there until the world's player plunges it (<= 40 s)",
     "ball search is left at its default (disabled); a loose ball at a rest point sits still (no switch hits)",
 ]
 HORIZONS = {"rest_horizon_virtual_s": 200, "settle_cap_virtual_s": 4000}
